@@ -465,7 +465,7 @@ PROPS = {"C06": c06, "C15": c15, "C18": c18, "C12": c12, "C07": c07, "C09": c09,
 
 # rules with a planted must-fire positive in /verif/fixtures, per property (run on every check)
 FIXTURE_RULES = {
-    "C03": ["R4", "R1"], "C04": ["R3", "R14", "R1"], "C05": ["R6", "R1"], "C06": ["R9", "R1", "R8", "R19"], "C07": ["R9", "R8", "R6", "R19"],
+    "C03": ["R4", "R1"], "C04": ["R3", "R14", "R1", "R21"], "C05": ["R6", "R1"], "C06": ["R9", "R1", "R8", "R19"], "C07": ["R9", "R8", "R6", "R19"],
     "C09": ["R9", "R1", "R19", "R6"], "C10": ["R10", "R9", "R1", "R6"], "C11": ["R8", "R9"], "C12": ["R6", "R8"], "C13": ["R9"],
-    "C14": ["R8", "R6"], "C15": ["R18", "R5"], "C16": ["R5", "R18"], "C17": ["R6"], "C18": ["R9", "R8", "R6", "R19"], "C20": ["R1", "R8", "R9"],
+    "C14": ["R8", "R6"], "C15": ["R18", "R5", "R22"], "C16": ["R5", "R18"], "C17": ["R6"], "C18": ["R9", "R8", "R6", "R19"], "C20": ["R1", "R8", "R9"],
 }
